@@ -44,6 +44,11 @@ var c10NameSets = [][]string{
 	{"with space", "UPPER.TXT", "x", "\U0001F4BEdisk", "tab\there"},
 	{"a", "b", "c", "d", "e"}, // every name exactly one UTF-16 code unit: the smallest possible entries
 	{"世", "界", "x", "y", "z"},
+	// code points on the limits of the encodings involved: 7-bit / 8-bit / 11-bit / 16-bit boundaries, the edges of the
+	// surrogate range, the first and last supplementary code point
+	{"a\u007fb", "a\u0080b", "a\u0081b", "\u0080", "\u07ffx"},
+	{"\u0800", "\ud7ff", "\ue000", "\uffff", "\U00010000"},
+	{"\U0010ffff.x", "\u00ff", "\u0100", "x\u007f", "\u0080\u0080"},
 }
 
 func c10WriteDir(c *c10Case, r *core.Rec) {
@@ -392,6 +397,9 @@ func c10Gen(g *core.Gen) {
 	}
 	for _, z := range []int{16383, 16384, 16385, 20000} {
 		g.Emit(&c10Case{Dir: "write", Sizes: []int{z, 100, 1}, Names: c10NameSets[1][:3], Volumes: 3})
+	}
+	for ns := range c10NameSets {
+		g.Emit(&c10Case{Dir: "write", Sizes: []int{7, 3, 12, 1, 9}, Names: c10NameSets[ns], Volumes: 2})
 	}
 	for _, v := range []int{98, 99} {
 		g.Emit(&c10Case{Dir: "write", Sizes: []int{5, 8, 2}, Names: c10NameSets[0][:3], Volumes: v})
